@@ -64,6 +64,9 @@ def add_gadgets(rng, m):
         return m["n"] - 1
     kind = rng.random()
     base = F(rng.randint(-3, 0 if nonpos else 3))
+    m["_tag"] = ("cancelling_self_loops" if (kind < .06 and not nonpos) else "tiny_probability_jackpot" if kind < .12 else
+                 "corridor" if kind < .2 else "implicit_absorbing_with_impossible_rewarded_successor" if kind < .3 else
+                 "near_one_self_loop" if kind < .4 else "near_tie" if kind < .6 else "late_tie")
     if kind < .06 and not nonpos:
         # (g) NOT absorbing although its expected rewards cancel: every action is a certain self-loop, one pays +r and
         # the other -r (discounted problems only: positive reward)
@@ -168,8 +171,13 @@ def gen_case(rng, tier):
                 ps = gen_mdp._split_prob(rng, len(pos), denom=rng.choice([3, 7, 10]) if len(pos) <= 3 else 10)
                 for i, pp in zip(pos, ps):
                     row[i] = [row[i][0], str(pp)]
+    tags = []
+    if nondyadic:
+        tags.append("nondyadic_probabilities")
     if rng.random() < .4:
         m = add_gadgets(rng, m)
+        if "_tag" in m:
+            tags.append("gadget:" + m.pop("_tag"))
     if gamma == "1" and rng.random() < .6:
         # trap: a non-absorbing state that can never reach an absorbing state (placeholder clause),
         # entered by an extra action of some state; usually outside the initial support
@@ -182,6 +190,7 @@ def gen_case(rng, tier):
         else:
             m["nA"] = max(m["nA"], 3)
             tacts = sorted(rng.sample(range(m["nA"]), 2))
+            tags.append("placeholder_state_with_unavailable_action")
         m["actions"].append(tacts)
         m["absorbing"].append(False)
         for a_ in tacts:
@@ -224,7 +233,15 @@ def gen_case(rng, tier):
         batch = {"variants": [None if k == pos else {"scale": rng.choice(["2", "3", "1/2", "5"]), "gamma": rng.choice(gs),
                                                       "negated_labels": rng.random() < .5, "int_gamma": rng.random() < .7}
                               for k in range(nb)]}
-    return {"mdp": m, "max_residual": eps, "max_iterations": mi, "batch": batch,
+    if eps == "0":
+        tags.append("zero_residual")
+    if batch:
+        tags.append("batch")
+        if any(v and v.get("negated_labels") for v in batch["variants"]):
+            tags.append("batch_with_negated_labels")
+        if any(v and v.get("gamma") == "1" for v in batch["variants"]) and F(m["gamma"]) < 1:
+            tags.append("batch_mixing_undiscounted_and_discounted")
+    return {"tags": tags, "mdp": m, "max_residual": eps, "max_iterations": mi, "batch": batch,
             "undefined_value": rng.choice(["0", "-7", "-inf", "-inf"] if gamma == "1" else ["0", "0", "-7", "-inf"]),
             "explicit_lists": rng.random() < .3, "actions_shared_list": rng.random() < .3, "int_gamma": rng.random() < .5,
             "action_order": rng.choice(["sorted", "sorted", "desc", "shuffled"]), "action_order_seed": rng.randrange(10**6)}
@@ -411,7 +428,7 @@ def search_failing(case, res, planner, out):
 
 def run(ctx):
     tier = ctx.tier
-    ncases = 60 if tier == "quick" else 600
+    ncases = 120 if tier == "quick" else 800
     if ctx.replay_case:
         cases = [ctx.replay_case["detail"]["case"]]
     else:
@@ -494,6 +511,10 @@ def run(ctx):
         for k, v in f.items():
             if isinstance(v, bool):
                 feats[k] = feats.get(k, 0) + int(v)
+        for tg in case.get("tags", []) + [k for k in ("explicit_lists", "actions_shared_list", "int_gamma") if case.get(k)]:
+            feats[tg] = feats.get(tg, 0) + 1
+        if case.get("undefined_value") == "-inf":
+            feats["infinite_placeholder"] = feats.get("infinite_placeholder", 0) + 1
     vals = ctx.coq(PRE, terms, shard=12 if tier == "quick" else 40)
     nchk = nmir = drift = ambiguous = nund = npi1 = nocert = 0
     distinct = set()
